@@ -57,3 +57,143 @@ pub fn progtest(args: &[String]) -> i32 {
     println!("constructs: {:?}", used_total);
     0
 }
+
+/// human-readable rendering of an outcome S-expression (for tests and replay files)
+pub fn pretty_outcome(outcome: &str) -> String {
+    use crate::astsexp::Sexp;
+    fn val(s: &Sexp) -> String {
+        match s {
+            Sexp::Atom(a) => {
+                if let Some(f) = crate::model::wire_f64(a) {
+                    if a.len() == 17 { return format!("{}", f); }
+                }
+                if a.starts_with('x') {
+                    if let Some(b) = crate::model::unhex(a) {
+                        return format!("{:?}", String::from_utf8_lossy(&b));
+                    }
+                }
+                a.clone()
+            }
+            Sexp::List(items) => {
+                if let Some(Sexp::Atom(h)) = items.first() {
+                    if h == "tbl" {
+                        let parts: Vec<String> = items[1..].iter().map(|kv| match kv {
+                            Sexp::List(p) if p.len() == 2 => format!("[{}]={}", val(&p[0]), val(&p[1])),
+                            other => val(other),
+                        }).collect();
+                        return format!("{{{}}}", parts.join(","));
+                    }
+                    if h == "builtin" && items.len() == 2 {
+                        return format!("<builtin {}>", val(&items[1]));
+                    }
+                }
+                format!("({})", items.iter().map(val).collect::<Vec<_>>().join(" "))
+            }
+        }
+    }
+    fn events(s: &Sexp) -> String {
+        match s {
+            Sexp::List(evs) => evs.iter().map(|e| match e {
+                Sexp::List(parts) if !parts.is_empty() => {
+                    let name = match &parts[0] { Sexp::Atom(a) => crate::model::unhex(a).map(|b| String::from_utf8_lossy(&b).to_string()).unwrap_or(a.clone()), o => val(o) };
+                    format!("{}({})", name, parts[1..].iter().map(val).collect::<Vec<_>>().join(","))
+                }
+                other => val(other),
+            }).collect::<Vec<_>>().join(" "),
+            other => val(other),
+        }
+    }
+    match Sexp::parse(outcome) {
+        Ok(Sexp::List(items)) if items.len() == 3 => {
+            let head = val(&items[0]);
+            let values = match &items[1] {
+                Sexp::List(vs) if head == "ok" => vs.iter().map(val).collect::<Vec<_>>().join(", "),
+                other => val(other),
+            };
+            format!("{} {} | {}", head, values, events(&items[2]))
+        }
+        _ => outcome.to_owned(),
+    }
+}
+
+/// `dlv semtest`: hand-written programs with the outcome real Lua 5.1 / Luau gives
+pub fn semtest(_args: &[String]) -> i32 {
+    let cases: &[(&str, &str)] = &[
+        ("return 1 + 2, 'a' .. 'b', 2 ^ 10, 7 % 3, -7 % 3, 7 / 2", "ok 3, \"ab\", 1024, 1, 2, 3.5 | "),
+        ("return 10 .. 20, 1 .. '', 0.5 .. 'x', -0.0 .. ''", "ok \"1020\", \"1\", \"0.5x\", \"-0\" | "),
+        ("return '10' + 5, '0x10' + 0, ' 3 ' * 2, 10 == '10', 'a' < 'b', 'Z' < 'a'", "ok 15, 16, 6, false, true, true | "),
+        ("return nil == false, not nil, not 0, 0 and 1, nil or 2, false and emit(1), 1 or emit(2)", "ok false, true, false, 1, 2, false, 1 | "),
+        ("local function f() return 1, 2, 3 end return f(), f()", "ok 1, 1, 2, 3 | "),
+        ("local function f() return 1, 2, 3 end return (f()), #{f()}, #{f(), f()}, {f(), nil}", "ok 1, 3, 4, {[1]=1} | "),
+        ("local function f(...) return select('#', ...), ... end return f(nil, nil)", "ok 2, nil, nil | "),
+        ("local function f(...) local a, b = ... return b, a end return f(1)", "ok nil, 1 | "),
+        ("local t = {10, 20, 30, x = 1} return #t, t[2], t.x, t['x'], t.y", "ok 3, 20, 1, 1, nil | "),
+        ("local t = {} t[1.0] = 'a' t[2] = 'b' return t[1], #t, t[2.0]", "ok \"a\", 2, \"b\" | "),
+        ("local a = 1 do local a = 2 emit(a) end emit(a) local a = a + 10 return a", "ok 11 | emit(2) emit(1)"),
+        ("local x = 0 local function inc() x = x + 1 return x end inc() inc() return x, inc()", "ok 2, 3 | "),
+        ("local fs = {} for i = 1, 3 do fs[i] = function() return i end end return fs[1](), fs[2](), fs[3]()", "ok 1, 2, 3 | "),
+        ("local s = 0 for i = 10, 1, -3 do s = s + i end return s", "ok 22 | "),
+        ("local s = 0 for i = 1, 0 do s = s + 1 end for i = 1, 3 do if i == 2 then break end s = s + i end return s", "ok 1 | "),
+        ("local i = 0 repeat local done = i >= 2 i = i + 1 until done return i", "ok 3 | "),
+        ("local i = 0 while true do i = i + 1 if i > 3 then break end end return i", "ok 4 | "),
+        ("local r = {} for k, v in ipairs({5, 6, nil, 8}) do r[#r + 1] = k * v end return r", "ok {[1]=5,[2]=12} | "),
+        ("local n = 0 for k, v in pairs({a = 1, b = 2}) do n = n + v end return n", "ok 3 | "),
+        ("local function fact(n) if n <= 1 then return 1 end return n * fact(n - 1) end return fact(5)", "ok 120 | "),
+        ("local t = {v = 1} function t:get(d) return self.v + d end function t.static(a) return a * 2 end return t:get(2), t.static(4), t.get(t, 5)", "ok 3, 8, 6 | "),
+        ("local a = {} function a.b() end a.c = {} function a.c.d(x) return x end function a.c:e() return self == a.c end return a.c.d(7), a.c:e()", "ok 7, true | "),
+        ("local mt = {__index = function(t, k) emit('idx', k) return 42 end} local o = setmetatable({}, mt) return o.foo, rawget(o, 'foo')", "ok 42, nil | emit(\"idx\",\"foo\")"),
+        ("local base = {hello = 'hi'} local o = setmetatable({}, {__index = base}) return o.hello, o.nope", "ok \"hi\", nil | "),
+        ("local log = {} local o = setmetatable({}, {__newindex = function(t, k, v) rawset(t, k, v * 2) end}) o.x = 5 o.x = 7 return o.x", "ok 7 | "),
+        ("local mt = {} mt.__add = function(a, b) return 'added' end mt.__concat = function(a, b) return 'cat' end mt.__call = function(self, x) return x + 1 end mt.__unm = function() return 'neg' end mt.__len = function() return 99 end local o = setmetatable({}, mt) return o + 1, 1 + o, o .. 'x', 'x' .. o, o(1), -o, #o", "ok \"added\", \"added\", \"cat\", \"cat\", 2, \"neg\", 99 | "),
+        ("local mt = {__eq = function() emit('eq') return true end, __lt = function() emit('lt') return false end, __le = function() emit('le') return true end} local a, b = setmetatable({}, mt), setmetatable({}, mt) return a == b, a ~= b, a < b, a <= b, a > b, a >= b, a == a", "ok true, false, false, true, false, true, true | emit(\"eq\") emit(\"eq\") emit(\"lt\") emit(\"le\") emit(\"lt\") emit(\"le\")"),
+        ("local o = setmetatable({}, {__tostring = function() return 'OBJ' end}) return tostring(o), tostring(nil), tostring(1.5), tostring(true)", "ok \"OBJ\", \"nil\", \"1.5\", \"true\" | "),
+        ("return pcall(function() error('boom') end)", "ok false, \"boom\" | "),
+        ("return pcall(function() local x = nil return x.y end)", "ok false, \"attempt to index a nil value\" | "),
+        ("return pcall(error, {code = 1})", "ok false, {[\"code\"]=1} | "),
+        ("return select(2, 'a', 'b', 'c'), select('#'), type(nil), type({}), type(print)", "ok \"b\", 0, \"nil\", \"table\", \"nil\" | "),
+        ("return string.format('%d-%s-%%', 3, 'x'), ('ab'):rep(3), ('hello'):sub(2, 3), #'abc', ('x'):upper()", "ok \"3-x-%\", \"ababab\", \"el\", 3, \"X\" | "),
+        ("return math.floor(3.7), math.floor(-3.2), math.huge > 1e308, -math.huge < 0, math.max(1, 5), math.sqrt(16)", "ok 3, -4, true, true, 5, 4 | "),
+        ("return 1/0 == math.huge, 0/0 == 0/0, 0/0 ~= 0/0, 3 % math.huge, 2^53 == 2^53 + 1", "ok true, false, true, NaN, true | "),
+        ("local a, b, c = (function() return 1, 2 end)() return a, b, c", "ok 1, 2, nil | "),
+        ("local a, b = 1 local c = 2, 3 return a, b, c", "ok 1, nil, 2 | "),
+        ("local t = {} local i = 1 i, t[i] = i + 1, 20 return i, t[1], t[2]", "ok 2, 20, nil | "),
+        ("local a, b = 1, 2 a, b = b, a return a, b", "ok 2, 1 | "),
+        ("emit(1, 'two', nil, true, {3}) emit() return", "ok  | emit(1,\"two\",nil,true,{[1]=3}) emit()"),
+        ("local t = setmetatable({}, {__index = function(t, k) return k .. '!' end}) return t.a, t[1]", "ok \"a!\", \"1!\" | "),
+        ("return #'', #{}, #{nil}, #{1, nil}, #{n = 1}", "ok 0, 0, 0, 1, 0 | "),
+        ("return tostring(1e15), tostring(1e14), tostring(123456789012), tostring(0.1), tostring(-0.0), tostring(1e100), tostring(2^63)", "ok \"1e+15\", \"1e+14\", \"123456789012\", \"0.1\", \"-0\", \"1e+100\", \"9.2233720368548e+18\" | "),
+        ("return tonumber('0x1p4'), tonumber('1e2'), tonumber('  12  '), tonumber('12a'), tonumber(''), tonumber('.5'), tonumber('5.')", "ok nil, 100, 12, nil, nil, 0.5, 5 | "),
+        ("local function v(...) return ... end return (v(1, 2)), {v(1, 2), v(3, 4)}", "ok 1, {[1]=1,[2]=3,[3]=4} | "),
+        ("local t = {f = function(self, x) return x end} return t:f(1), t.f(t, 2), ('x'):len()", "ok 1, 2, 1 | "),
+        ("goto_ = 1 return goto_", "ok 1 | "),
+        ("local x <const> = 1 return x", "PARSE-ERROR"),
+    ];
+    let luau_cases: &[(&str, &str)] = &[
+        ("local a = 1 a += 2 a *= 3 local s = 'x' s ..= 'y' return a, s", "ok 9, \"xy\" | "),
+        ("local t = {n = 1} local function g() emit('g') return t end g().n += 5 return t.n", "ok 6 | emit(\"g\")"),
+        ("local s = 0 for i = 1, 5 do if i % 2 == 0 then continue end s += i end return s", "ok 9 | "),
+        ("local i = 0 local n = 0 while i < 5 do i += 1 if i == 2 then continue end n += 1 end return n", "ok 4 | "),
+        ("local i = 0 repeat i += 1 local stop = i >= 3 if i == 1 then continue end until stop return i", "ok 3 | "),
+        ("return if true then 1 else 2, if false then 1 elseif nil then 3 else 4", "ok 1, 4 | "),
+        ("local function f() return 1, 2 end return (if true then f() else 0)", "ok 1 | "),
+        ("local n = 3 return `n={n} s={'x'} b={true} nil={nil} \\{}`", "ok \"n=3 s=x b=true nil=nil {}\" | "),
+        ("return 7 // 2, -7 // 2, 7.5 // 2, 1 // 0", "ok 3, -4, 3, inf | "),
+        ("local x: number = 1 type T = number local function f(a: string, ...: number): boolean return true end return (x :: any), f('a')", "ok 1, true | "),
+        ("return 0b101, 0xFF, 1_000, 0x_ff", "ok 5, 255, 1000, 255 | "),
+        ("local o = setmetatable({}, {__idiv = function() return 'idiv' end}) return o // 1", "ok \"idiv\" | "),
+    ];
+    let mut model = Model::spawn();
+    let mut failures = 0;
+    for (code, expected) in cases.iter().chain(luau_cases.iter()) {
+        let got = match exec::parse(code) {
+            Ok(block) => pretty_outcome(&exec::run_block(&mut model, 100, &block)),
+            Err(_) => "PARSE-ERROR".to_owned(),
+        };
+        if &got != expected {
+            failures += 1;
+            println!("MISMATCH\n  code:     {}\n  expected: {}\n  got:      {}", code, expected, got);
+        }
+    }
+    println!("semtest: {} cases, {} mismatches", cases.len() + luau_cases.len(), failures);
+    if failures == 0 { 0 } else { 1 }
+}
